@@ -306,6 +306,9 @@ func (g *gen) goTime(prod bool) time.Time {
 		case 3:
 			return t.In(time.FixedZone("huge", 40000*60)) // minutes do not fit int16
 		default:
+			if g.r.Bool() {
+				return t.In(time.FixedZone("s", -g.r.Intn(59)-1)) // sub-minute negative offset: JSON renders +00:00
+			}
 			return t.In(time.FixedZone("m90", -90))
 		}
 	default:
